@@ -533,7 +533,7 @@ inline std::string mutate_random(std::string b, vh::rng& r, size_t header_len) {
 // truncation lengths: every length for small seeds, every byte of the head and a stride beyond otherwise
 inline std::vector<size_t> truncation_points(size_t len, size_t every_below, size_t head, size_t strided) {
     std::vector<size_t> v;
-    if (len <= every_below) { for (size_t i = 0; i < len; ++i) v.push_back(i); return v; }
+    if (len <= every_below || len <= head) { for (size_t i = 0; i < len; ++i) v.push_back(i); return v; }
     for (size_t i = 0; i < head && i < len; ++i) v.push_back(i);
     size_t rest = len - head;
     size_t n = strided < rest ? strided : rest;
